@@ -3,7 +3,7 @@
    short native name, C type of a descriptor) vs the model of jni/type.py + java/type.py (Marshal/Jni.v, tied to the
    code by the K-jni correspondence). *)
 From Coq Require Import List String Ascii Bool Arith.
-From PDV Require Import Lib.StrUtil Lang.Jvm Marshal.Jni Marshal.JniProofs Gen.ExternalTypes Jinja.Tir Jinja.Interp Gen.Templates Jinja.FragFlags Jinja.FragRecord Jinja.FragJni.
+From PDV Require Import Lib.StrUtil Lang.Jvm Marshal.Jni Marshal.JniProofs Gen.ExternalTypes Jinja.Tir Jinja.Interp Gen.Templates Jinja.FragFlags Jinja.FragRecord Jinja.FragJni Jinja.Inline Jinja.FragJniExport.
 Import ListNotations.
 Open Scope string_scope.
 
@@ -90,6 +90,31 @@ Theorem C07_lookup_loops_are_the_templates :
   Slice.nth_for "methods" 1 t_jni_header_interface_jinja2_hpp = Some meth_lookup_loop.
 Proof. repeat split; vm_compute; reflexivity. Qed.
 Print Assumptions C07_lookup_loops_are_the_templates.
+
+(* the exported native functions as printed: every iteration of the JNIEXPORT loop (base-template macros expanded) starts with the
+   prototype  JNIEXPORT <ret> JNICALL <prefix>_00024CppProxy_[native_1]<name, _ -> _1>(JNIEnv*, jclass | jobject, jlong {, <ctype> <name>}) noexcept { *)
+Theorem C07_native_prototype_as_printed : forall prefix tdo m idx last others ns, exists st' tail,
+  execs cpp_cfg (proto_stmts ++ rest_stmts) (mkst (iter_scope prefix tdo m (loopv idx (Nat.eqb idx 0) last) others) ns)
+  = (st', (proto prefix m ++ tail)%string).
+Proof. exact export_iteration_starts_with_prototype. Qed.
+Print Assumptions C07_native_prototype_as_printed.
+
+Theorem C07_export_loop_is_the_template :
+  match Slice.nth_for "methods" 1 t_jni_source_interface_jinja2_cpp with
+  | Some f => inline 4 (macros_of t_jni_base_jinja2 ++ macros_of t_jni_source_interface_jinja2_cpp) [f]
+  | None => []
+  end = [SFor "method" (EAttr (EVar "type_def") "methods") None (proto_stmts ++ rest_stmts)].
+Proof. vm_compute. reflexivity. Qed.
+Print Assumptions C07_export_loop_is_the_template.
+
+(* ... and the symbol in that prototype is the JNI short name of the Java native method *)
+Theorem C07_printed_symbol_is_jni_short_name : forall pkg name m,
+  Forall (fun s => jident s = true) (split_on "."%char pkg ++ [name])%list -> jmethod (xm_name m) = true ->
+  (decl_jni_prefix pkg name ++ "_00024CppProxy_" ++ (if xm_static m then "" else "native_1") ++
+   replace_all "_" "_1" (xm_name m) (S (String.length (xm_name m))))%string
+  = native_symbol (join "/" (split_on "."%char pkg ++ [name])%list ++ "$CppProxy") ((if xm_static m then "" else "native_") ++ xm_name m).
+Proof. intros pkg name m H1 H2. rewrite printed_symbol_is_proxy_symbol. now apply proxy_symbol_is_jni_name. Qed.
+Print Assumptions C07_printed_symbol_is_jni_short_name.
 
 (* non-vacuity: a method  f(a: i32?, b: list<string>) -> com.ex.Foo  *)
 Example C07_example :
